@@ -45,8 +45,8 @@ METHODS = list(so.METHODS)  # defined on every instrumented class (str / datetim
 PROPS = list(so.PROPS)
 CATTRS = list(so.CATTRS)
 CLASS_LEVEL = METHODS + PROPS + CATTRS
-EXPOSED = ["title", "n", "tags", "child", "kids"]
-DUNDERS = ["__class__", "__dict__", "__init__", "__globals__", "__subclasses__", "__module__", "__doc__",
+EXPOSED = ["title", "n", "tags", "child", "kids", "f0", "f1"]
+DUNDERS = ["_fields", "_asdict", "count", "__class__", "__dict__", "__init__", "__globals__", "__subclasses__", "__module__", "__doc__",
            "__mro__", "__bases__", "__name__", "__qualname__", "__self__", "__func__", "__code__",
            "__builtins__", "__getattribute__", "__reduce__", "__str__", "__repr__", "__getitem__", "__len__",
            "__liquid__", "__html__", "__slots__", "__weakref__", "_lv_exposed", "_lv_items", "_lv_watch"]
@@ -55,9 +55,9 @@ CHAINS = [["__class__", "__name__"], ["__class__", "__mro__"], ["__class__", "__
           ["__init__", "__globals__"], ["__class__", "__init__", "__globals__"], ["__dict__", "secret"],
           ["__class__", "__dict__"], ["__init__", "__globals__", "GLOBAL_SENTINEL"], ["__class__", "__module__"]]
 
-TARGETS = ["p", "m", "s", "q", "objs[0]", "objs.first", "objs.last", "objs[1]", "d.a", "d.b[0]", "d.b.first",
+TARGETS = ["p", "m", "s", "q", "r", "rs[0]", "rs.last", "r[1]", "objs[0]", "objs.first", "objs.last", "objs[1]", "d.a", "d.b[0]", "d.b.first",
            "s[0]", "s.first", "s.last", "m.child", "m.kids[0]", "ms[1]", "ms.first", "objs[0].child"]
-LISTS = ["objs", "ms", "d.b", "s", "m.kids", "m", "p", "q", "d", "objs[0].kids", "m.tags"]
+LISTS = ["objs", "ms", "rs", "r", "d.b", "s", "m.kids", "m", "p", "q", "d", "objs[0].kids", "m.tags"]
 KEY_FILTERS = ["map", "where", "reject", "sort", "sort_natural", "sort_numeric", "sum", "uniq", "compact",
                "find", "find_index", "has"]
 VALUE_FILTERS = frozenset(["where", "reject", "find", "find_index", "has"])
@@ -117,6 +117,7 @@ PERMITTED = {
     "liquid": OBSERVED | DOCUMENTED,
     "sequence": OBSERVED | DOCUMENTED,
     "mapping": OBSERVED | DOCUMENTED | MAPPING_API,
+    "record": OBSERVED | DOCUMENTED,
 }
 
 RE_SENT = re.compile(MARK + r"(\d+)_(\w+)")
@@ -275,6 +276,12 @@ class Gen:
         d.update(shape="sequence", items=[self.mapping(custom, deep=False), _scalar(5), self.plain(custom)])
         return d
 
+    def record(self, custom: bool) -> dict[str, Any]:
+        d = self.common(custom)
+        oid = d["id"]
+        d.update(shape="record", items=[_scalar(so.public(oid, "f0")), self.mapping(custom, deep=False)])
+        return d
+
     def liquid(self, value: Any) -> dict[str, Any]:
         d = self.common(True)
         d.update(shape="liquid", liquid=value, html=f"<i>HTML_{d['id']}</i>")
@@ -308,6 +315,8 @@ class Gen:
             "b": {"shape": "list", "items": [self.plain(True), self.mapping(True, deep=False)]},
             "k": _scalar(self.name()),
         }}
+        descs["r"] = self.record(bool(flags & 2))
+        descs["rs"] = {"shape": "list", "items": [self.record(not flags & 2), self.record(True)]}
         descs["k"] = _scalar(self.name())
         descs["k2"] = _scalar(self.name())
         descs["ks"] = {"shape": "list", "items": [_scalar(self.name()), _scalar(self.name())]}
@@ -381,7 +390,7 @@ class Gen:
         for _ in range(1 + self.draw(_INTS[3])):
             r = self.roll()
             n = self.name()
-            root = self.pick(["p", "m", "s", "q", "v", "w", "objs", "d"])
+            root = self.pick(["p", "m", "s", "q", "v", "w", "objs", "d", "r"])
             if r < 40:
                 parts.append(f"%({n})s")
             elif r < 55:
@@ -743,7 +752,7 @@ class C05(Prop):
     technique = ("property-based testing: sentinel information-flow oracle + attribute-access log on instrumented "
                  "context objects, filter registry wrapped (Hypothesis)")
     rule = (
-        "a case = JSON description of context objects of 5 shapes (plain instance, Mapping drop exposing a strict "
+        "a case = JSON description of context objects of 6 shapes (plain instance, named-tuple record, Mapping drop exposing a strict "
         "subset of its attributes, Sequence drop, __liquid__/__html__ object, nestings in lists/dicts; 1-4 drawn "
         "instance attributes + 13 methods, 5 properties and 3 class attributes per object, each holding/returning "
         "SENTINEL_<id>_<name>) + a positive-control unit + 2-6 probe units, "
